@@ -79,6 +79,18 @@ CHECKS = {
             "Trusted: transfer.py; names without parentheses (output label format). Tables are compared at the transferred vector, "
             "so non-unique optima cannot raise an alarm.",
             "DESIGN.md 5 C09"),
+    "C12": ("property-based testing (Hypothesis): metamorphic relation (re-express rates and durations in another main time unit) on the assembled arrays, no solver; reference step lengths on DST / month grids",
+            "Exploration: every generated portfolio over all asset classes is built in two main time units with rates multiplied "
+            "and durations divided by the unit ratio; c,l,u,A,b,cType must agree to 1e-9 (and the optimum on every 4th case); "
+            "on grids with unequal steps dt and the per-step limits are compared with real elapsed time from own UTC arithmetic.",
+            "Trusted: the list of rate and duration parameters in c12.py (read off the docstrings); timeline.py.",
+            "DESIGN.md 5 C12"),
+    "C13": ("property-based testing (Hypothesis): differential against the fine-grid problem with explicit equality rows solved by scipy-HiGHS",
+            "Exploration: for every asset class accepting freq / periodicity (one and two variables per step, one and two nodes) "
+            "the value is compared with the same portfolio built with the plain asset plus harness-written equalities; the "
+            "reported dispatch must be piecewise constant / periodic; set-up must not raise.",
+            "Trusted: scipy-HiGHS; positions of coarse intervals and periods computed from step numbers (uniform grids).",
+            "DESIGN.md 5 C13"),
     "C14": ("property-based testing (Hypothesis): metamorphic relation split vs unsplit with solution transfer + per-interval reference optima",
             "Exploration: generated portfolios without coupling / with start=end storages are set up split (interval sizes 6h..W, "
             "aligned or not, DST zones, wacc) and unsplit; value must be the sum of independently solved interval optima, "
